@@ -113,6 +113,10 @@ def c_conv(kind, dw_from, dw_to):
             h.finding(f"finding.{ch}.narrow", z3.Implies(z3.And(incr, z3.Not(full)), bytes_f == bytes_t),
                       "AXI converters scale len as if every beat were full width: for a narrow burst (size below the source bus width) the translated burst transfers a different number of bytes")
             h.ensure(f"ens.{ch}.addr", h.v(t.addr) == (h.v(f.addr) & K(2**32 - (dw_from // 8), 32)))
+            # "deliver all data beats with last on the final one": the W/R stride converters split EVERY wide beat into `ratio` narrow beats (proved in
+            # C10_axi_datapath.py, whatever `size` says), so the announced length must be ratio x the wide beat count for every size - also for narrow
+            # transfers, where the surplus beats carry no strobes
+            h.ensure(f"ens.{ch}.len-matches-datapath", z3.Implies(fits, zx(h.v(t.len), W) + 1 == (zx(h.v(f.len), W) + 1) * ratio))
         else:
             whole = z3.URem(zx(h.v(f.len), W) + 1, K(ratio, W)) == 0
             h.ensure(f"ens.{ch}.bytes@full-size-whole-words", z3.Implies(z3.And(incr, full, whole), z3.And(bytes_f == bytes_t, ule(h.v(t.size), lt))))
